@@ -92,7 +92,7 @@ def check(ctx, stream, g, packets, cuts):
                     ctx.violate(stream, inp, {"packet": k, "delivered_in_segment": i}, {"last_byte": last_byte},
                                 "packet not delivered by the segment that carries its last byte")
                 k += 1
-        if buf != b"":
+        if buf is not None and buf != b"":
             ctx.violate(stream, inp, hx(buf), "-", "bytes left in the buffer after a complete stream")
     ctx.count(f"{stream}:packets={len(packets)}:cuts={len(cuts)}")
     ctx.case(stream, key=(hx(data), tuple(cuts)), sample={"packets": len(packets), "total": len(data), "cuts": list(cuts)[:8]})
